@@ -165,4 +165,24 @@ var props = map[string]*Prop{
 			{Name: "cli-index-scan", Pkg: "internal/cli", Test: "TestVerifC05CLI", Shards: sh(8, 8), TimeoutS: sh(1800, 3600), Builds: []Build{{Pkg: "cmd/sfw", Out: "sfw"}}},
 		},
 	},
+	"C09": {
+		Level: "exploration",
+		Rule: "file-pair family: old files of four functions drawn from the program family (configs with two or three functions of identical shape, a closure, a method, recursion); EVERY assignment of {keep, edit, rename, remove} to the four functions (256) x {0,1,2} added functions, through the real cli.ComputeDiff; oracle: independent inventories of both files (public fingerprint API) => every old and new function (incl. function literals and methods) occurs in exactly one entry, name-identical functions are paired by name, summary counters and topology_matches agree with the listed entries. A second unit re-runs the zipper on every (base, edit) pair of the program family and checks on its internal maps that the matching is a bijection, kind- and type-respecting, and that added/removed are exactly the unmatched instructions. Non-trivial = distinct file pair / function pair.",
+		Assumptions: []string{"the inventory comes from the repository's own fingerprint enumeration (C16 checks that enumeration against go/ast)"},
+		Bounds:      map[string]string{"quick": "2 configs x 256 x 3 = 1536 file pairs; all edit pairs", "thorough": "5 configs = 3840 file pairs; all edit pairs"},
+		Units: []Unit{
+			{Name: "file-pairs-accounting", Pkg: "internal/cli", Test: "TestVerifC09", Shards: sh(16, 16), TimeoutS: sh(1800, 3600), DeadlineS: sh(900, 3000)},
+			{Name: "zipper-bijection", Pkg: "pkg/diff", Test: "TestVerifC09Zipper", Shards: sh(16, 16), TimeoutS: sh(1800, 3600)},
+		},
+	},
+	"C19": {
+		Level: "exploration",
+		Rule: "the C09 file-pair family (every keep/edit/rename/remove assignment x added functions, shapes shared by 2-3 functions): every function whose only change is its name must be paired (status renamed) with a new function whose body is identical modulo the name, pairings one-to-one, no non-name pairing below the threshold; plus ALL ordered pairs of topologies of the program family (bases and their fully renamed copies) and synthetic extremes: similarity symmetric, in [0,1], not NaN, exactly 1 for identical and for renamed copies. Non-trivial = distinct file pair / renamed copy.",
+		Assumptions: []string{"when several new functions have a body identical to the renamed one, any of them is an acceptable partner"},
+		Bounds:      map[string]string{"quick": "1536 file pairs; all topology pairs", "thorough": "3840 file pairs; all topology pairs"},
+		Units: []Unit{
+			{Name: "file-pairs-renames", Pkg: "internal/cli", Test: "TestVerifC19", Shards: sh(16, 16), TimeoutS: sh(1800, 3600), DeadlineS: sh(900, 3000)},
+			{Name: "similarity-laws", Pkg: "internal/cli", Test: "TestVerifC19Similarity", Shards: sh(4, 4), TimeoutS: sh(1800, 3600)},
+		},
+	},
 }
